@@ -484,15 +484,20 @@ def p3_stream_job(run, name, prop, streams, profile="dev", timeout=2400, heap="6
         for i, st in enumerate(streams):
             k = st.get("k", 1)
             op = ["us", 0, st["xs"]] if k == 1 else ["uss", 0, st["xs"], k]
+            if st.get("dense"):
+                op = ["usr", 0, st["xs"], k, st["dense"]]       # every k-th answer plus every answer inside the dense step ranges
             f.write(json.dumps({"id": i + 1, "unit": st["unit"], "float": st.get("float", "f64"), "slots": 1, "prog": [["new", 0, st["cfg"]], op]}) + "\n")
     harness("run", inp, outp, profile)
     nlines = 0
-    index = []   # trace line -> (stream, inputs consumed)
+    kept = []
     with open(trace, "w") as f:
         for st, line in zip(streams, open(outp)):
             r = json.loads(line)
             if r["res"][0] != "ok":
-                raise ToolError("%s: constructor refused %s" % (name, st["cfg"]))
+                if r["res"][0] == "reject":
+                    continue                      # a configuration its constructor refuses has no behaviour to judge
+                raise ToolError("%s: could not build %s: %s" % (name, st["cfg"], r["res"][0]))
+            kept.append(st)
             obs = r["res"][1]
             k = st.get("k", 1)
             hdr = {"cfg": st["cfg"], "unit": st["unit"], "mode": st["mode"], "eps": st["eps"], "float": st.get("float", "f64")}
@@ -502,9 +507,17 @@ def p3_stream_job(run, name, prop, streams, profile="dev", timeout=2400, heap="6
                 raise ToolError("%s: eps %s does not fit TLC's 32-bit integers (use epsp)" % (name, st["eps"]))
             f.write(json.dumps(hdr) + "\n")
             nlines += 1
-            for j, o in enumerate(obs):
-                f.write(json.dumps({"xs": st["xs"][j * k:(j + 1) * k], "o": o}) + "\n")
-                nlines += 1
+            slim = st["mode"] == "alive"          # this mode judges the answers alone: the inputs are not written out again
+            if st.get("dense"):
+                prev = 0
+                for step, o in obs:
+                    f.write(json.dumps({"xs": [1] if slim else st["xs"][prev:step], "o": o}) + "\n")
+                    prev = step; nlines += 1
+            else:
+                for j, o in enumerate(obs):
+                    f.write(json.dumps({"xs": [1] if slim else st["xs"][j * k:(j + 1) * k], "o": o}) + "\n")
+                    nlines += 1
+    streams = kept
     res = run_tlc("Trace_Stream", "TraceS.cfg", {"TRACE": trace, "PROP": prop}, wd, workers=1, timeout=timeout, heap=heap, dfs=True)
     events = res["tally"].get("events", 0)
     if events != nlines - len(streams):
@@ -514,7 +527,7 @@ def p3_stream_job(run, name, prop, streams, profile="dev", timeout=2400, heap="6
         run.transitions += res["states"]
         run.traces += len(streams)
         run.evaluations += events
-        run.nontrivial += sum(v for k2, v in res["tally"].items() if (k2.startswith("def.") and k2 not in ("def.any",)) or k2.startswith("range.") or k2 == "nopanic")
+        run.nontrivial += sum(v for k2, v in res["tally"].items() if (k2.startswith("def.") and k2 not in ("def.any",)) or k2.startswith("range.") or k2 in ("nopanic", "alive"))
         run.exhaustive = False
         run.jobs.append({"name": name, "pipeline": "P3", "validator": "Trace_Stream.tla", "profile": profile, "streams": len(streams),
                          "inputs": sum(len(st["xs"]) for st in streams), "events_judged": events, "tally": {k2: v for k2, v in res["tally"].items() if not k2.startswith("print.")},
